@@ -712,6 +712,21 @@ def new_module_state(repo, shorts):
                         muts.append((f, n))
             if muts:
                 out.append((short, g, muts[0][0], muts[0][1]))
+                continue
+            # an object built once at import time by package code (a parser, a state, a table loader) and then used
+            # through its methods by every run in the process: whatever a run leaves in it (argparse keeps the
+            # mutable default lists of its options) is seen by the next run
+            pkg_names = {f.name for f in repo.all_functions()} | {c.name for mm in repo.modules.values() for c in mm.classes.values()}
+            built = [v for v in vals if isinstance(v, ast.Call) and (u(v.func).split(".")[-1] in pkg_names or u(v.func).endswith("ArgumentParser"))]
+            if built:
+                for f in users:
+                    for n in f.body_nodes():
+                        if isinstance(n, ast.Call) and isinstance(n.func, ast.Attribute) and isinstance(n.func.value, ast.Name) and n.func.value.id == g:
+                            out.append((short, g, f, n))
+                            break
+                    else:
+                        continue
+                    break
         # functools caches
         for f in m.functions.values():
             for d in f.node.decorator_list:
